@@ -338,7 +338,10 @@ func (pl *plan) render(mode int) string {
 			sb.WriteString(", ")
 		}
 		sb.WriteString("i32")
-		if p.name != "" || explicitIn(mode, p) {
+		// LLVM 14 checks an explicit parameter number against the parameter's *index*
+		// ("argument expected to be numbered '%<index>'") although the body numbers it by
+		// the count of unnamed values: after a named parameter no explicit form exists.
+		if p.name != "" || (explicitIn(mode, p) && p.num == i) {
 			sb.WriteString(" " + p.ident())
 		}
 	}
@@ -406,7 +409,7 @@ func (pl *plan) build(e *env) (*ir.Func, objects) {
 		obj[b.label] = ib
 	}
 	val := func(it *item) value.Value { return obj[it].(value.Value) }
-	for _, b := range pl.blocks {
+	buildInsts := func(b *pblock) {
 		ib := blocks[b]
 		for _, it := range b.insts {
 			switch it.op {
@@ -442,8 +445,17 @@ func (pl *plan) build(e *env) (*ir.Func, objects) {
 		}
 	}
 	for _, b := range pl.blocks {
+		if b != pl.uses {
+			buildInsts(b)
+		}
+	}
+	for _, b := range pl.blocks {
 		ib := blocks[b]
 		t := b.term
+		if b == pl.uses {
+			// the uses block stores the results of terminators: built once they exist
+			buildInsts(b)
+		}
 		switch t.op {
 		case "ret":
 			obj[t] = ib.NewRet(nil)
